@@ -194,13 +194,17 @@ theorem balanced (c : Call) :
     ∃ s, run [] (callEvents c) = some ([], s) ∧
       match c with
       | .unary _ _ => ∀ x ∈ s, x = 0
-      | .stream _ _ sz _ => ∀ x ∈ s, x = 0 ∨ x = sz.c := by
+      | .stream _ _ sz _ => ∀ x ∈ s, x = 0 ∨ x = sz.c
+      | .castInput _ _ sz => ∀ x ∈ s, x = sz.e ∨ x = sz.c + sz.e := by
   cases c with
   | unary m sz =>
     cases m <;> simp [callEvents, run, release, outstanding]
   | stream k w sz turns =>
     obtain ⟨s, hs, hb⟩ := stream_balanced k w sz turns 0 []
     exact ⟨s, hs, by simpa [outstanding] using hb⟩
+  | castInput w bad sz =>
+    simp only [callEvents]
+    cases castOf .xch w bad <;> simp [run, release, outstanding]
 
 /-! ### Non-vacuity -/
 
@@ -217,5 +221,9 @@ example : run [] (callEvents (.stream .prod .i64 sz0
 /-- the ledger does notice a missing release: drop the collector's release and bytes stay -/
 example : run [] [.sample, .acq (.emit 0 0) 128] = some ([(.emit 0 0, 128)], [0]) := by decide
 example : run [] [.rel (.cast 0)] = none := by decide
+
+/-- a two-column input whose second column fails the cast: nothing stays behind -/
+example : run [] (callEvents (.castInput .two true sz0)) = some ([], [128]) := by decide
+example : run [] (callEvents (.castInput .two false sz0)) = some ([], [192]) := by decide
 
 end Vgi.Props.C41
